@@ -2,10 +2,10 @@
 CONSTANTS
   Orig = {}
   PoolSizes = {0, 1, 3}
-  Lens = {0, 1, 5, 8}
+  Lens = {0, 1, 6}
   Modes = {"static", "auto", "chunk"}
   Chunks = {1, 3}
-  MaxThreads = {0, 1, 2, 5}
+  MaxThreads = {0, 2, 5}
   Waits = {TRUE, FALSE}
   Grans = {1, 2}
   MinItems = {1}
